@@ -385,7 +385,7 @@ def fixed_scenarios():
 
 
 RACE_WITH_END = (5, 6, 7, 8)     # indexes in fixed_scenarios()
-QUICK_ENUMERATED = RACE_WITH_END + (9,)
+QUICK_ENUMERATED = RACE_WITH_END + (9, 2)    # 2: a stop inside a timed delay
 
 
 def enumerate_fixed(acc, index, part, parts, depth):
